@@ -50,3 +50,31 @@ Print Assumptions C12_match_is_token_matching.
 Theorem C12_invalid_pattern_matches_nothing : forall p s, parse p = None -> match_model p s = false.
 Proof. exact invalid_matches_nothing. Qed.
 Print Assumptions C12_invalid_pattern_matches_nothing.
+
+From RG Require Import Pure.ModelDiff Proofs.ModelDiffProofs.
+
+(* Models: for any cached model and any re-fetched model (neither containing delete actions as stored values —
+   the decoder rejects those), processing the derived change event makes the cache equal to the re-fetched model. *)
+Theorem C12_model_reset_converges : forall old new, uniq old -> uniq new ->
+  (forall k v, lookup k new = Some v -> v <> VDelete) ->
+  (forall k v, lookup k old = Some v -> v <> VDelete) ->
+  let '(eff, m') := apply_change (reset_props old new) old in
+  forall k, lookup k m' = lookup k new.
+Proof. exact reset_converges_partial. Qed.
+Print Assumptions C12_model_reset_converges.
+
+(* ... and the change event a client is sent (with delete actions), applied to the client's copy, gives exactly what
+   the cache stores. *)
+Theorem C12_model_change_event_client_agrees : forall props m,
+  let '(eff, m') := apply_change props m in
+  forall k, lookup k (client_apply eff m) = lookup k m'.
+Proof. exact apply_change_client_lookup_only. Qed.
+Print Assumptions C12_model_change_event_client_agrees.
+
+(* Unchanged content yields no event, and only unchanged content does. *)
+Theorem C12_model_reset_noop_iff : forall old new, uniq old -> uniq new ->
+  (forall k v, lookup k new = Some v -> v <> VDelete) ->
+  (forall k v, lookup k old = Some v -> v <> VDelete) ->
+  (reset_props old new = [] <-> forall k, lookup k old = lookup k new).
+Proof. exact reset_noop_iff_partial. Qed.
+Print Assumptions C12_model_reset_noop_iff.
